@@ -158,6 +158,8 @@ pub struct SymEncoder {
     pub hist: Vec<u8>,
     /// index in `hist` where the current dictionary epoch starts
     pub base: usize,
+    /// position to use instead of hist.len() - base (what-if clones only)
+    pub pos_override: Option<u64>,
 }
 
 impl SymEncoder {
@@ -166,11 +168,15 @@ impl SymEncoder {
             model: Model::new(props),
             hist: Vec::new(),
             base: 0,
+            pos_override: None,
         }
     }
 
     pub fn pos(&self) -> u64 {
-        (self.hist.len() - self.base) as u64
+        match self.pos_override {
+            Some(p) => p,
+            None => (self.hist.len() - self.base) as u64,
+        }
     }
 
     fn prev_byte(&self) -> u8 {
@@ -199,6 +205,33 @@ impl SymEncoder {
 
     pub fn reset_dict(&mut self) {
         self.base = self.hist.len();
+    }
+
+    /// Clone for a what-if encoding of ONE literal: model plus the last few
+    /// history bytes only (a literal needs the previous byte and the rep0 byte;
+    /// callers use it right after literals, i.e. in a state < 7).
+    pub fn clone_model_only(&self) -> SymEncoder {
+        let keep = self.hist.len().min(1);
+        SymEncoder {
+            model: self.model.clone(),
+            hist: self.hist[self.hist.len() - keep..].to_vec(),
+            base: 0,
+            pos_override: None,
+        }
+        .with_pos(self.pos())
+    }
+
+    fn with_pos(mut self, pos: u64) -> SymEncoder {
+        self.pos_override = Some(pos);
+        self
+    }
+
+    /// Take over the model of a what-if clone after committing `op` (a literal).
+    pub fn adopt_model(&mut self, other: SymEncoder, op: &Op) {
+        self.model = other.model;
+        if let Op::Lit(b) = op {
+            self.hist.push(*b);
+        }
     }
 
     pub fn append_raw(&mut self, b: &[u8]) {
